@@ -760,3 +760,89 @@ Proof.
   rewrite (lookup_homestead chain_cfgs) with (id := id) (cfg := cfg); [cbn; apply N.leb_le; lia| |exact E].
   intros e He. specialize (H e He). destruct (c_homestead (cfg_of_tuple (snd e))) as [[|p]|]; try discriminate. reflexivity.
 Qed.
+
+(* ------------------------------------------------------------------ existence layer (EIP-161) *)
+
+Lemma memN_In a l : memN a l = true <-> In a l.
+Proof.
+  induction l as [|x t IH]; cbn [memN In]; [split; [discriminate|tauto]|].
+  rewrite Bool.orb_true_iff, N.eqb_eq, IH. tauto.
+Qed.
+
+(* Finalise(deleteEmptyObjects = true): no account that is dirty and empty, and no suicided one, is left *)
+Lemma finalise_e_spec de su sF es a :
+  In a (es_exist (finalise_e de su sF es)) ->
+  In a (es_exist es) /\
+  (In a (es_dirty es) -> ~ In a su /\ (de = true -> is_empty_acc (get a sF) = false)).
+Proof.
+  unfold finalise_e. cbn [es_exist]. rewrite filter_In. intros (Hin & Hf). split; [exact Hin|].
+  intros Hd. apply memN_In in Hd. rewrite Hd in Hf. cbn [andb] in Hf.
+  apply Bool.negb_true_iff, Bool.orb_false_iff in Hf. destruct Hf as (H1 & H2). split.
+  - intros Hs. apply memN_In in Hs. congruence.
+  - intros ->. cbn [andb] in H2. exact H2.
+Qed.
+
+Theorem eip161_no_empty_dirty_account_survives cfg num coinbase run erun idx s pool cum m es r a :
+  apply_transaction cfg num coinbase run idx s pool cum m = TxOk r ->
+  (is_forked (c_byzantium cfg) num = true \/ is_forked (c_eip158 cfg) num = true) ->
+  let es' := apply_transaction_e cfg num coinbase run erun idx s pool cum m es in
+  In a (es_exist es') -> In a (es_dirty es') ->
+  ~ In a (t_suicided (x_tdb r)) /\ is_empty_acc (get a (t_state (x_tdb r))) = false.
+Proof.
+  intros Happly Hde. cbv zeta. unfold apply_transaction_e. rewrite Happly.
+  match goal with |- In a (es_exist (finalise_e ?de ?su ?sF ?e)) -> _ => set (E := e); set (D := de) end.
+  intros Hin Hd. destruct (finalise_e_spec D _ _ E a Hin) as (_ & H).
+  unfold finalise_e in Hd. cbn [es_dirty] in Hd. destruct (H Hd) as (H1 & H2). split; [exact H1|].
+  apply H2. subst D. destruct Hde as [-> | ->]; [reflexivity|]. destruct (is_forked (c_byzantium cfg) num); reflexivity.
+Qed.
+
+(* "If execution fails, no other state change survives" is false of the code as far as the EXISTENCE of the
+   recipient goes (the content theorem failed_tx_leaves_only_fees holds): *)
+
+(* (a) after EIP-158, a failing call with value to an existing empty account deletes that account:
+       balanceChange.undo leaves it in stateObjectsDirty and Finalise(true) removes it *)
+Definition failing_run : runner := fun ri st => mkRO RunFail 0 0 st 0 [].
+Definition no_erun : erunner := fun _ => mkEO [] [].
+
+Lemma failed_tx_deletes_empty_recipient_refuted :
+  exists cfg num coinbase s pool m es r,
+    apply_transaction cfg num coinbase failing_run 0 s pool 0 m = TxOk r /\ t_failed (x_tdb r) = true /\
+    m_to m = Some 4 /\ In 4 (es_exist es) /\
+    ~ In 4 (es_exist (apply_transaction_e cfg num coinbase failing_run no_erun 0 s pool 0 m es)).
+Proof.
+  exists all_forks, 1, 12, [(10, mkAcc 1000000%Z 0 0 0); (4, empty_acc)], 8000000,
+         (mkMsg 10 (Some 4) 0 1 21010 1 [] true), (mkES [10; 4] []).
+  eexists. split; [vm_compute; reflexivity|]. split; [vm_compute; reflexivity|]. split; [reflexivity|].
+  split; [right; left; reflexivity|]. vm_compute. intros [H|[H|[]]]; discriminate.
+Qed.
+
+(* (b) before EIP-158, a failing call to a recipient that does not exist leaves a new empty account:
+       st.to() creates it before evm.Call takes its snapshot *)
+Lemma failed_tx_creates_empty_recipient_refuted :
+  exists cfg num coinbase s pool m es r,
+    apply_transaction cfg num coinbase failing_run 0 s pool 0 m = TxOk r /\ t_failed (x_tdb r) = true /\
+    m_to m = Some 2 /\ ~ In 2 (es_exist es) /\
+    In 2 (es_exist (apply_transaction_e cfg num coinbase failing_run no_erun 0 s pool 0 m es)).
+Proof.
+  exists (mkCfg (Some 0) None None None None), 1, 12, [(10, mkAcc 1000000%Z 0 0 0)], 8000000,
+         (mkMsg 10 (Some 2) 0 1 21010 0 [] true), (mkES [10] []).
+  eexists. split; [vm_compute; reflexivity|]. split; [vm_compute; reflexivity|]. split; [reflexivity|].
+  split; [intros [H|[]]; discriminate|]. vm_compute. tauto.
+Qed.
+
+(* (c) Frontier (no Homestead): a creation whose code deposit runs out of gas is reported as failed but is
+       NOT rolled back: the value stays with the new account *)
+Definition csoog_run : runner := fun ri st => mkRO RunCodeStoreOOG (ri_gas ri) 0 st 0 [].
+
+Lemma frontier_code_store_oog_refuted :
+  exists cfg num coinbase s pool m r,
+    is_forked (c_homestead cfg) num = false /\
+    apply_transaction cfg num coinbase csoog_run 0 s pool 0 m = TxOk r /\ t_failed (x_tdb r) = true /\
+    m_to m = None /\
+    bal (get (m_from m) (x_state r)) = (bal (get (m_from m) s) - Z.of_N (t_used (x_tdb r) * m_price m) - Z.of_N (m_value m))%Z /\
+    bal (get (recipient m s) (x_state r)) = Z.of_N (m_value m) /\ m_value m = 5.
+Proof.
+  exists (mkCfg None None None None None), 1, 12, [(10, mkAcc 1000000%Z 0 0 0)], 8000000,
+         (mkMsg 10 None 0 1 60000 5 [] true).
+  eexists. split; [reflexivity|]. split; [vm_compute; reflexivity|]. repeat split; vm_compute; reflexivity.
+Qed.
